@@ -9,7 +9,8 @@ LEVEL = "model_checking"
 RULE = ("exhaustive over list shapes: ALL (affine-pair list, prepared-pair list) with total length 0..n (n=3 quick, 4 thorough) whose entries are drawn from "
         "{P1,P2,O} x {Q1,Q2,O}; each list is evaluated TWICE in a row on the same pair arrays (private cursor fields pre-filled with 0xFF garbage before the "
         "first evaluation, left as they are before the second), through pairing_sum (C) and pairing_product (C++); expected value = product of the single "
-        "pairings = e(G1,G2)^(sum of exponent products) from the Python model; plus prepared_pairing vs pairing on all alphabet pairs. "
+        "pairings = e(G1,G2)^(sum of exponent products) from the Python model; plus prepared_pairing vs pairing on all alphabet pairs; plus LONG lists: the "
+        "pair count takes every boundary value 5..9, 15..17, 31..33, 63..65, 100 (pure affine, pure prepared, half/half; with an identity pair in the last position). "
         "state = (list, evaluation number); distinct by construction; non-trivial = at least one pair without an identity")
 ASSUMPTIONS = ["single pairings are decided by C01; e(G1,G2) and its powers come from vlib/ref.py", "portable back ends run every 4th list (the Miller-loop code is shared)"]
 CONFIGS = ["asm", "c64", "c32"]
@@ -86,6 +87,28 @@ def eval_case(case):
     return msgs
 
 
+LONG_LENGTHS = [5, 6, 7, 8, 9, 15, 16, 17, 31, 32, 33, 63, 64, 65, 100]
+
+
+def long_lists(tier):
+    """the list LENGTH is an operand too: boundary values of the pair count (every 2^k and its neighbours up to 65, and 100), as pure
+    affine, pure prepared and half/half lists, each with and without an identity pair in the last position, over a repeating symbol pattern"""
+    pat = [("P1", "Q1"), ("P2", "Q1"), ("P1", "Q2"), ("P2", "Q2")]
+    out = []
+    for n in LONG_LENGTHS:
+        base = [pat[i % 4] for i in range(n)]
+        for tail in (None, ("P1", "O"), ("O", "Q2")):
+            lst = list(base)
+            if tail is not None:
+                lst[-1] = tail
+            out.append((tuple(lst), ()))
+            out.append(((), tuple(lst)))
+            out.append((tuple(lst[: n // 2]), tuple(lst[n // 2:])))
+        if tier == "thorough":
+            out.append((tuple(base), tuple(base)))
+    return out
+
+
 def lists(n):
     out = []
     for total in range(n + 1):
@@ -104,6 +127,8 @@ def shards(ctx):
         out.append({"sub": "single", "cfg": cfg})
         for k in range(16 if cfg == "asm" else 4):
             out.append({"sub": "lists", "cfg": cfg, "part": k, "parts": 16 if cfg == "asm" else 4})
+        for k in range(4):
+            out.append({"sub": "long", "cfg": cfg, "part": k, "parts": 4})
     return out
 
 
@@ -118,16 +143,21 @@ def run_shard(ctx, shard):
                 ctx.fail(case, "; ".join(msgs), sig="single")
         return
     n = 3 if ctx.tier == "quick" else 4
-    all_lists = lists(n)
-    if cfg != "asm":
-        all_lists = all_lists[::4]
+    if shard["sub"] == "long":
+        all_lists = long_lists(ctx.tier)
+        if cfg != "asm":
+            all_lists = all_lists[::3]
+    else:
+        all_lists = lists(n)
+        if cfg != "asm":
+            all_lists = all_lists[::4]
     if ctx.tier == "thorough" and cfg == "asm":
         pass
     for a, p in all_lists[shard["part"]::shard["parts"]]:
         case = {"sub": "list", "cfg": cfg, "seed": ctx.seed, "affine": [list(x) for x in a], "prepared": [list(x) for x in p]}
         msgs = eval_case(case)
         nontriv = any(x != "O" and y != "O" for x, y in list(a) + list(p))
-        kind = "len%d:%s" % (len(a) + len(p), "mixed" if a and p else ("affine" if a else ("prepared" if p else "empty")))
+        kind = "len%s:%s" % (len(a) + len(p) if shard["sub"] != "long" else ">4", "mixed" if a and p else ("affine" if a else ("prepared" if p else "empty")))
         ctx.ok(nontriv, kind, n=4)
         ctx.sample(case, limit=1)
         if msgs:
@@ -141,7 +171,7 @@ def replay(ctx, case):
 
 
 def finish(merged, cov):
-    for need in ("len0:empty", "len1:affine", "len1:prepared", "len2:mixed", "len3:mixed", "single"):
+    for need in ("len0:empty", "len1:affine", "len1:prepared", "len2:mixed", "len3:mixed", "single", "len>4:affine", "len>4:prepared", "len>4:mixed"):
         if not merged.outcomes.get(need):
             return "outcome class %s never exercised" % need
     cov["states"] = merged.evaluations
